@@ -102,9 +102,7 @@ def txnNode (s : State) (idx : Nat) (v : CatVerb) (n : Node) : Except Err (State
   | .cas => match ensureNodeCas s idx n with
     | .ok (s', true) => okRes s' (nodeRes s' n)
     | .ok (_, false) => .error .casStale
-    -- as the code is: `entry, err = getNode()` overwrites the error of `ensureNodeCASTxn`, so a
-    -- failed (not merely stale) node CAS is reported as a success that wrote nothing
-    | .error _ => okRes s (nodeRes s n)
+    | .error e => .error e
   | .delete => match deleteNode s idx n.name with
     | .ok s' => okRes s' []
     | .error e => .error e
@@ -152,9 +150,7 @@ def txnCheck (s : State) (idx : Nat) (v : CatVerb) (c : Chk) : Except Err (State
   | .cas => match ensureCheckCas s idx c with
     | .ok (s', true) => okRes s' (chkRes s' c)
     | .ok (_, false) => .error .casStale
-    -- as the code is: `_, entry, err = getNodeCheckTxn(…)` overwrites the error of
-    -- `ensureCheckCASTxn` (missing node / service), which is therefore reported as success
-    | .error _ => okRes s (chkRes s c)
+    | .error e => .error e
   | .delete => match deleteCheck s idx c.node c.id with
     | .ok s' => okRes s' []
     | .error e => .error e
